@@ -17,6 +17,7 @@ type qop struct {
 	v       int
 	removes []bool // iter: Remove decision after the k-th Next
 	maxNext int
+	late bool // iter: Remove() of the last element only after the traversal has ended (a second HasNext() first)
 	// calls at the edges of the iterator protocol (iter; `over` also on final):
 	rem0 bool // Remove() before any Next(): nothing to remove
 	dbl  bool // every scripted Remove() is followed by a second Remove(): the second one has nothing to remove
@@ -334,6 +335,25 @@ func (r *qrun) body(tid int, th qthread, mutex bool) func() {
 					}
 					k++
 				}
+				if tr.complete && op.late && len(tr.vals) > 0 && tr.vals[len(tr.vals)-1] >= 0 &&
+					(len(tr.removed) == 0 || tr.removed[len(tr.removed)-1] != tr.vals[len(tr.vals)-1]) {
+					// the traversal is over (HasNext() == false); only now the client removes the element it got last - a legal use: "Remove
+					// deletes exactly the element last returned by Next". Other goroutines (or this one) may have made iterators meanwhile.
+					cur = "HasNext() on the exhausted iterator"
+					o = r.h.begin(tid, "hasnext", -1)
+					hn := it.HasNext()
+					r.h.end(o, fmt.Sprint(hn))
+					if hn {
+						r.edgeFail("%s HasNext() returned true after it had returned false (no Next() in between)", r.tag)
+					}
+					last := tr.vals[len(tr.vals)-1]
+					o = r.h.begin(tid, "remove", last)
+					tr.removed = append(tr.removed, last)
+					tr.removedAt = append(tr.removedAt, o.inv)
+					cur = "iterator Remove() after the traversal has ended"
+					it.Remove()
+					r.h.end(o, "unit")
+				}
 				if tr.complete {
 					cur = "Next() on the exhausted iterator"
 					for j := 0; j < op.over; j++ {
@@ -423,6 +443,7 @@ func genQueueProgram(rng *rand.Rand, family string, mutex bool) (ths []qthread, 
 		// edges of the iterator protocol, each in about a quarter of the traversals
 		op.rem0 = rng.Intn(4) == 0
 		op.dbl = rng.Intn(4) == 0
+		op.late = rng.Intn(3) == 0
 		if rng.Intn(4) == 0 {
 			op.over = 1 + rng.Intn(2)
 		}
